@@ -69,6 +69,9 @@ func VH_C13_tree() {
 		v.Assert(d.Kind == s.Kind, "entry types are equal")
 		v.Assert(d.Target == s.Target, "symlink targets are copied, not followed")
 		v.Assert(d.Rdev == s.Rdev, "device numbers are equal")
+		if s.Kind != m.KSymlink {
+			v.Assert(xattrsEqual(s, d), "xattrs are equal")
+		}
 		if s.Kind == m.KFile {
 			v.Assert(string(d.Data) == string(s.Data), "file bytes are equal")
 		}
